@@ -495,7 +495,7 @@ def run_shard(spec, seed, tier):
             small = dict(case)
             res.add_violation(small, str(v), v.bucket)
         return res
-    n = 60 if tier == "quick" else 900
+    n = 60 if tier == "quick" else 500
     hyp.search(res, st_case(spec["scheme"]), body, seed, n)
     # the same workflows through frontend.client.commands (the functions behind run_client.py), results parsed from stdout
     hyp.search(res, st_cli_case(spec["scheme"]), body, seed + 1, 6 if tier == "quick" else 40)
